@@ -39,13 +39,17 @@ RECURSIVE FirstDiff(_, _, _)
 FirstDiff(a, b, i) == IF i > Len(Sections) THEN "-"
                       ELSE IF a[Sections[i]] # b[Sections[i]] THEN Sections[i] ELSE FirstDiff(a, b, i + 1)
 
-VARIABLE tr
-Init == tr \in 1..Len(Pairs)
-Next == UNCHANGED tr
+\* root -> group -> pair, so that the pairs are judged by all TLC workers (initial states are handled by one)
+VARIABLES grp, tr
+Groups == 64
+Init == grp = 0 /\ tr = 0
+Next == \/ grp = 0 /\ grp' \in 1..Groups /\ UNCHANGED tr
+        \/ grp # 0 /\ tr = 0 /\ tr' \in {n \in 1..Len(Pairs) : n % Groups = grp - 1} /\ UNCHANGED grp
 
 Holds(n) == Pairs[n].acc /\ Approx(Pairs[n].p1, Pairs[n].p2)
 Judge ==
-  IF Holds(tr) THEN PrintT("ACC " \o ToString(tr))
+  IF tr = 0 THEN TRUE
+  ELSE IF Holds(tr) THEN PrintT("ACC " \o ToString(tr))
   ELSE PrintT("REJ " \o ToString(tr) \o " " \o
               (IF ~Pairs[tr].acc THEN "not-accepted" ELSE FirstDiff(Norm(Pairs[tr].p1), Norm(Pairs[tr].p2), 1)))
 =============================================================================
